@@ -59,7 +59,9 @@ func autoDetectPacketSize(r io.Reader) (packetSize int, err error) {
 
 	// Packet must start with a sync byte
 	if b[0] != syncByte {
-		err = ErrPacketMustStartWithASyncByte
+		if err = discardPeeked(r, shouldRewind, l); err == nil {
+			err = ErrPacketMustStartWithASyncByte
+		}
 		return
 	}
 
@@ -92,7 +94,20 @@ func autoDetectPacketSize(r io.Reader) (packetSize int, err error) {
 			return
 		}
 	}
-	err = fmt.Errorf("astits: only one sync byte detected in first %d bytes", l)
+	if err = discardPeeked(r, shouldRewind, l); err == nil {
+		err = fmt.Errorf("astits: only one sync byte detected in first %d bytes", l)
+	}
+	return
+}
+
+// discardPeeked makes sure a failed detection consumes the bytes it has looked at, like it does for readers
+// that are not peeked, otherwise calling again would fail on the very same bytes forever
+func discardPeeked(r io.Reader, shouldRewind bool, n int) (err error) {
+	if br, ok := r.(*bufio.Reader); ok && !shouldRewind {
+		if _, err = br.Discard(n); err != nil {
+			err = fmt.Errorf("astits: discarding %d bytes failed: %w", n, err)
+		}
+	}
 	return
 }
 
